@@ -904,7 +904,7 @@ def run(ctx: Ctx) -> None:
     # a recorded (not repaired) re-attestation defect is excluded by construction: the model then tolerates it
     known_aa = tuple(site for site in (AA_SITE, AA_SHADOW_SITE) if is_known(PID, "C1", site) is not None)
     shard_run(ctx, _enum_shard, extra=(known_aa,))
-    shard_run(ctx, _random_shard, extra=(150 if ctx.quick else 2000, 30 if ctx.quick else 45, known_aa))
+    shard_run(ctx, _random_shard, extra=(150 if ctx.quick else 10000, 30 if ctx.quick else 45, known_aa))
     ctx.note("pools", {"hashes": [h.hex() for h in HASHES], "names": NAMES, "reg_meta": REG_META,
                        "adv_meta": ADV_META, "waits": WAITS, "known": KNOWN, "craft": CRAFT_MUT,
                        "attest": ATTEST_MODES, "flight_budget": FLIGHT_BUDGET})
